@@ -80,6 +80,11 @@ def cases(tier, seed):
                         subs = SUBSETS if (thorough or size in (1, 39, 2295)) else [("bin", "cas", "dsk"), ("dsk",), ("cas",)]
                         for sub in subs:
                             yield {"size": size, "origin": origin, "nam": nam, "cliname": cn, "end": end, "out": list(sub)}
+    # programs whose last byte is the last byte of memory ($FFFF): origin + size = $10000 (no statement can follow, so no END)
+    for size in SIZES:
+        for nam, cn in (("HELLO", None), (None, "cli")):
+            for sub in SUBSETS:
+                yield {"size": size, "origin": 0x10000 - size, "nam": nam, "cliname": cn, "end": "none", "out": list(sub)}
     # NAM is a directive like any other: it may stand after the ORG or at the end of the program
     for size in (1, 39):
         for origin in (None, 0x0E00):
